@@ -2,6 +2,8 @@ import SFV.Proofs.GaussNM
 import SFV.Proofs.FockTensor
 import SFV.Proofs.Bosonic
 import SFV.Proofs.FockPrep
+import SFV.Proofs.FockLoss
+import SFV.Proofs.GaussRegister
 import Mathlib.Tactic.IntervalCases
 
 /-!
@@ -117,6 +119,25 @@ theorem fock_channel_local {K : Type} [CommSemiring K] (D : Nat) (ks : List ((Na
     (∑ v ∈ Finset.range D, applyChannel1 D ks m ρ (upd (upd idx (2 * m) v) (2 * m + 1) v)) =
       ∑ v ∈ Finset.range D, ρ (upd (upd idx (2 * m) v) (2 * m + 1) v) :=
   trace_channel1 D ks m hcomplete ρ idx
+
+/-- … and the hypothesis is met by the loss channel the back end builds (`ops.lossChannel(T, D)`, all `D` Kraus operators): a
+`LossChannel` on mode `m` leaves the state traced over `m` — every reduced state of the other modes — exactly as it was -/
+theorem fock_loss_local {K : Type} [CommRing K] (e : Nat → Nat → K) (T : K)
+    (he : ∀ k n, e k n * e k n = SFV.Fock.lossSq T k n) (D m : Nat) (ρ : SFV.Fock.Tens K) (idx : SFV.Fock.Idx) :
+    (∑ v ∈ Finset.range D, SFV.Fock.applyChannel1 D (SFV.Fock.lossKrausList e D) m ρ
+        (SFV.Fock.upd (SFV.Fock.upd idx (2 * m) v) (2 * m + 1) v)) =
+      ∑ v ∈ Finset.range D, ρ (SFV.Fock.upd (SFV.Fock.upd idx (2 * m) v) (2 * m + 1) v) :=
+  SFV.Fock.loss_trace_preserving e T he D m ρ idx
+
+/-- **`New` leaves every old mode alone** (Gaussian simulator): all first and second moments among the old modes are kept,
+whatever the number of old and new modes -/
+theorem gaussian_add_mode_local {K : Type} [CommRing K] (st : SFV.Gauss.GS K) (m i j : Nat) (hi : i < st.n) (hj : j < st.n) :
+    (SFV.Gauss.toXP (SFV.Gauss.addMode st m)).xx i j = (SFV.Gauss.toXP st).xx i j ∧
+    (SFV.Gauss.toXP (SFV.Gauss.addMode st m)).xp i j = (SFV.Gauss.toXP st).xp i j ∧
+    (SFV.Gauss.toXP (SFV.Gauss.addMode st m)).pp i j = (SFV.Gauss.toXP st).pp i j ∧
+    (SFV.Gauss.toXP (SFV.Gauss.addMode st m)).mx i = (SFV.Gauss.toXP st).mx i ∧
+    (SFV.Gauss.toXP (SFV.Gauss.addMode st m)).mp i = (SFV.Gauss.toXP st).mp i :=
+  SFV.Gauss.addMode_keeps_old st m i j hi hj
 
 /-- **`prepare_multimode`, whole register**: axis `a` of the given ket ends up on mode `modes[a]` for
 every order of the listed modes (`axisMap modes a = modes[a]`) -/
